@@ -1,6 +1,5 @@
 use vstd::prelude::*;
 verus! {
-pub uninterp spec fn vac_choice(i: int) -> bool;
 // 16-bit quantities on the wire: big-endian (Modbus data) and little-endian (RTU CRC trailer)
 pub open spec fn be16(s: Seq<u8>, i: int) -> int { s[i] as int * 256 + s[i + 1] as int }
 pub open spec fn le16(s: Seq<u8>, i: int) -> int { s[i] as int + s[i + 1] as int * 256 }
